@@ -14,18 +14,22 @@ Nunavut's edits (see EXCLUDED; the list is copied into REPORT.md).
 """
 
 EXCLUDED = [
-    "template text containing \\x0b \\x0c \\x1c-\\x1e \\x85 U+2028 U+2029 (2.x splits source lines with str.splitlines, 3.x only on \\r\\n|\\r|\\n)",
-    "float literals with exponent / digit separators (1e3, 1_000): 3.x lexer only",
-    "chained power a ** b ** c (associativity changed upstream)",
-    "inline `x if c` without else under StrictUndefined (3.x always yields a plain Undefined)",
-    "filters whose output format changed upstream: urlize, truncate, wordwrap, indent with blank lines, xmlattr, tojson, pprint, filesizeformat, groupby, items, random, unique on mixed case, default on StrictUndefined attribute chains",
+    "template text containing \\x0b \\x0c \\x1c-\\x1e \\x85 U+2028 U+2029 (2.x splits the source with str.splitlines, 3.x only on \\r\\n|\\r|\\n)",
+    "float literals with exponent or digit separators (1e3, 1_000): 3.x lexer only",
+    "chained power a ** b ** c (associativity changed upstream); only `(a) ** literal` is generated",
+    "inline `x if c` without else (3.x yields a plain Undefined even under StrictUndefined)",
+    "the `+` modifier at a tag end (`+%}`, `+#}`): 3.x only — generated comments never end in `+`",
+    "dotted filter names (`x|string.split()`): accepted by 3.x, 'no filter named' in 2.x — postfix operands are parenthesised",
+    "filters whose behaviour or output format changed upstream and that are not generated: urlize, truncate, wordwrap, xmlattr, tojson, pprint, filesizeformat, groupby, items, random, striptags",
+    "string filters on non-string input (wordcount, title … of an int/dict: TypeError in 2.x, coerced in 3.x) — operands are typed and parenthesised",
+    "string filters applied to Markup values (escaped strings, block-set variables, macro/caller results under autoescape): center, striptags, title, indent keep or drop Markup-ness differently in 2.x and 3.x; Markup values are only printed or concatenated",
+    "{% set x | filter %}…{% endset %} (Markup-ness of the result under autoescape differs between the versions)",
+    "loop.length / loop.revindex / loop.revindex0 inside a filtered loop `for x in xs if c` (off by one in the 2.11.dev snapshot, with or without Nunavut's edits)",
+    "{% include %} inside a {% call %} body (caller() then prints a generator object with its address, in both engines)",
     "tests added after 2.10: boolean, false, true, integer, float, filter, test",
-    "unknown filters / tests (compile-time error in 2.x, may be a run-time error in 3.x)",
-    "{% trans %}, async, required blocks, {% set ns = namespace() %} attribute assignment, loop.changed with several arguments",
-    "lstrip_blocks together with a tag that is not the first thing on its line, or with `+`; trim_blocks/lstrip_blocks with comments (2.x implements lstrip in the regex, 3.x in code)",
-    "whitespace control inside raw blocks ({%- endraw -%})",
-    "Markup/escape of non-ASCII quotes: markupsafe versions agree on & < > \" ' only for str input, so escape is applied to strings only",
-    "error *messages* and exception classes beyond 'both fail'",
+    "unknown filters / tests (compile-time error in 2.x, may be a run-time error in a dead branch in 3.x)",
+    "{% trans %}, async, required blocks, namespace() attribute assignment, whitespace control inside {% raw %}/{% endraw %} tags",
+    "exception messages; exception classes are compared loosely ('both fail' is agreement, the class pair is counted)",
 ]
 
 TEXT_ALPHA = ["a", "b", "x", " ", " ", "\n", "\n", "\t", "<", "&", "'", '"', "{", "}", "%", "#", "*", "-", ".", ",", "é", "0", "\\"]
@@ -38,6 +42,7 @@ class Scope:
         self.in_loop = parent.in_loop if parent else False
         self.macros = dict(parent.macros) if parent else {}
         self.caller = parent.caller if parent else False
+        self.no_include = parent.no_include if parent else False
 
     def of(self, ty):
         return [n for n, t in self.vars.items() if t == ty]
@@ -130,7 +135,7 @@ class Gen:
         k = r.randint(0, 21)
         a = self.e_str(sc, d - 1)
         if k == 0: return f"{a} ~ {self.P(self.e_any(sc, d - 1))}"
-        if k == 1: return f"({a})|{r.choice(['upper', 'lower', 'trim', 'capitalize', 'title', 'string', 'escape', 'e', 'safe', 'striptags', 'urlencode', 'reverse', 'forceescape'])}"
+        if k == 1: return f"({a})|{r.choice(['upper', 'lower', 'trim', 'capitalize', 'title', 'string', 'urlencode', 'reverse'])}"
         if k == 2: return f"({a})|replace({self.lit_str()}, {self.lit_str()})"
         if k == 3: return f"{self.P(self.e_list(sc, d - 1))}|join({self.lit_str()})"
         if k == 4: return f"({self.e_int(sc, d - 1)})|string"
@@ -140,15 +145,12 @@ class Gen:
         if k == 8: return f"n0|default({self.lit_str()}, true)"
         if k == 9: return f"({a})|default({self.lit_str()})"
         if k == 10: return f"'%s=%s'|format({a}, {self.e_any(sc, d - 1)})"
-        if k == 11: return f"({a})|center({r.choice(['3', '8'])})"
+        if k == 11: return f"({a})|{r.choice(['upper', 'lower'])}"
         if k == 12: return r.choice(["obj.b", "obj['b']"])
-        if k == 13 and sc.macros:
-            return self.macro_call(sc, d - 1)
         if k == 14: return f"{self.P(self.e_lstr(sc, d - 1))}|{r.choice(['first', 'last'])}|default('none')"
         if k == 15: return f"({a})|indent({r.choice(['2', '4, true', '1, false'])})" if "\\n\\n" not in a else a
         if k == 16 and sc.in_loop: return f"loop.cycle({self.lit_str()}, {self.lit_str()})"
         if k == 17: return f"({a})|list|join('.')"
-        if k == 18 and sc.caller: return "caller()"
         if k == 19: return f"({a})|{r.choice(['first', 'last'])}|default('')"
         if k == 20: return f"{self.P(a)} + {self.P(self.e_str(sc, d - 1))}"
         return f"({a})"
@@ -221,6 +223,18 @@ class Gen:
 
     def e_list(self, sc, d):
         return self.e_lint(sc, d) if self.r.random() < 0.5 else self.e_lstr(sc, d)
+
+    def e_out(self, sc, d):
+        """an expression for an output position `{{ … }}`: anything, plus the values that are Markup under autoescape
+        (escaped strings, block-set variables, macro results) — these are printed, never filtered further, because the
+        two upstream versions disagree on which string filters keep a value Markup"""
+        r = self.r
+        k = r.randint(0, 11)
+        if k == 0: return f"({self.e_str(sc, d)})|{r.choice(['e', 'escape', 'safe', 'forceescape'])}"
+        if k == 1 and sc.of("markup"): return r.choice(sc.of("markup"))
+        if k == 2 and sc.macros: return self.macro_call(sc, d)
+        if k == 3 and sc.of("markup"): return f"{r.choice(sc.of('markup'))} ~ {self.P(self.e_str(sc, d))}"
+        return self.e_any(sc, d)
 
     def e_any(self, sc, d):
         k = self.r.randint(0, 9)
@@ -295,11 +309,11 @@ class Gen:
             if r.random() < self.errors:
                 f("runtime-error")
                 return self.var(self.e_err(sc))
-            return self.var(self.e_any(sc, r.randint(0, 3)))
+            return self.var(self.e_out(sc, r.randint(0, 3)))
         if k == 7:
             f("comment")
-            c = self.text(8).replace("#}", "# }").replace("*", "+")
-            return "{#" + r.choice(["", " ", "-"]) + c + r.choice(["", " ", " -" if not c.endswith("-") else ""]) + "#}"
+            c = self.text(8).replace("#}", "# }").strip("*+-")   # no marker; `+#}` is a 3.x-only sign
+            return "{#" + r.choice(["", " ", "-"]) + c + r.choice(["", " ", " -"]) + "#}"
         if k <= 10:
             f("if")
             s = self.tag("if " + self.e_bool(sc, 2)) + self.body(Scope(sc), depth - 1)
@@ -328,6 +342,7 @@ class Gen:
                 inner.vars[v] = "str"; head = f"for {v} in {self.e_str(sc, 1)}"
             if r.random() < 0.25 and kind != 2:
                 f("for-filter")
+                inner.in_loop = False    # loop.length / loop.revindex of a filtered loop are off by one in the 2.11.dev snapshot (EXCLUDED)
                 cond = (f"{v} is odd" if inner.vars[v] == "int" else f"{v} != 'a'")
                 head += " if " + cond
             b = self.body(inner, depth - 1)
@@ -349,9 +364,9 @@ class Gen:
         if k == 15:
             f("set-block")
             v = self.fresh("g")
-            flt = r.choice(["", "", " | upper", " | trim"])
+            flt = ""   # a filtered set block under autoescape differs between the upstream versions (EXCLUDED)
             s = self.tag(f"set {v}{flt}") + self.body(Scope(sc), depth - 1, 2) + self.tag("endset")
-            sc.vars[v] = "str"
+            sc.vars[v] = "markup"
             return s
         if k == 16:
             f("macro")
@@ -376,10 +391,12 @@ class Gen:
             m = self.fresh("m")
             inner = Scope(); inner.caller = True
             d = self.tag(f"macro {m}(t)") + self.text(4) + self.var("caller()") + self.var("t") + self.tag("endmacro")
-            return d + self.tag(f"call {m}({self.e_any(sc, 1)})") + self.body(Scope(sc), depth - 1, 2) + self.tag("endcall")
+            bsc = Scope(sc)
+            bsc.no_include = True   # an include inside a call body makes caller() print a generator object (with its address) in both engines
+            return d + self.tag(f"call {m}({self.e_any(sc, 1)})") + self.body(bsc, depth - 1, 2) + self.tag("endcall")
         if k == 19:
             f("filter-block")
-            flt = r.choice(["upper", "lower", "trim", "replace('a', 'b')", "escape", "upper|trim", "center(12)", "striptags", "title"])
+            flt = r.choice(["upper", "lower", "trim", "replace('a', 'b')", "escape", "upper|trim"])
             return self.tag(f"filter {flt}") + self.body(Scope(sc), depth - 1, 2) + self.tag("endfilter")
         if k == 20:
             f("with")
@@ -390,7 +407,7 @@ class Gen:
             t = "".join(r.choice(["a", " ", "{{", "}}", "{%", "%}", "x", "\n", "{#", "*", "-"]) for _ in range(r.randint(0, 8)))
             t = t.replace("endraw", "")
             return "{% raw %}" + t + "{% endraw %}"
-        if k == 22:
+        if k == 22 and not sc.no_include:
             f("include")
             if r.random() < self.errors:
                 f("missing-template")
@@ -419,7 +436,7 @@ class Gen:
         if k == 28:
             f("nested-data")
             return self.var(r.choice(["obj.l|join(',')", "obj|dictsort", "d|dictsort", "li", "ls", "d.items()|list|sort", "{'x': [1, 2]}.x[1]", "[1, [2, 3]][1][0]", "(1, 2)", "li|batch(2)|list", "li|slice(2)|list",
-                                      "li|map('string')|join('+')", "ls|join('|')|upper", "n0", "none", "li|first|default('empty')", "1.5 + i0", "i0 / 2", "10 // 4 * 2.0", "s0|list|length", "s0|e|upper", "s0|safe|e"]))
+                                      "li|map('string')|join('+')", "ls|join('|')|upper", "n0", "none", "li|first|default('empty')", "1.5 + i0", "i0 / 2", "10 // 4 * 2.0", "s0|list|length", "s0|e", "s0|safe|e", "s0|center(9)"]))
         return self.text()
 
     # ---------------------------------------------------------------- whole template sets
